@@ -65,6 +65,24 @@ def run(ctx):
             reqs.append(osuite.obs_request(name, area, cs2, []))
     osuite.compare(ctx, metas, reqs)
 
+    # histories: the state object observed before, moved in place, copied -- its observation must still equal the one of a freshly
+    # built rotated world
+    def check(name, area, cs, kind, val, obs, state):
+        if name not in DET:
+            return
+        f = comp.build_obs({'name': name, 'area': area})
+        for rot in (r.choice(ORIS[1:]),):
+            s2 = rotate_world(wire.mkstate(cs), rot)
+            try:
+                o2 = f(s2)
+                k2 = ('ok', wire.cstate(o2))
+            except Exception as e:  # noqa: BLE001
+                k2 = ('err', wire.EXN_NAMES.get(wire.exn_code(e), type(e).__name__))
+            if k2 != (kind, val):
+                ctx.violation(f'{name}: after a history of other calls, the observation differs from the one of the world rotated by {rot.name}',
+                              {'function': name, 'area': area, 'state': gen.show_state(cs), 'turn': rot.name, 'wire_state': cs, 'history': True})
+    osuite.run_histories(ctx, 200 if ctx.tier == 'quick' else 2000, check)
+
 
 if __name__ == '__main__':
     sys.exit(core.main('C07', run, None))
